@@ -562,3 +562,27 @@ Proof.
     + rewrite forallb_forall. intros f Hf. apply in_map_iff in Hf. destruct Hf as [c [Hc' Hin']]. subst f.
       apply csv_cell_text_ok. rewrite forallb_forall in Hc. apply Hc. exact Hin'.
 Qed.
+
+(* the natural join pairs the shared columns BY POSITION (self's order against
+   other's order): when the two tables list them in a different order it does
+   not compare the same-named columns *)
+Definition nj_self : table :=
+  mkT [[97]; [98]; [112]] [[CI 1; CI 2]; [CI 2; CI 1]; [CS [120]; CS [121]]] 2.
+Definition nj_other : table :=
+  mkT [[98]; [97]; [113]] [[CI 2; CI 1]; [CI 1; CI 2]; [CS [117]; CS [118]]] 2.
+
+Theorem natural_join_by_position_refuted :
+  wf nj_self /\ wf nj_other /\
+  exists t, joined nj_self nj_other None None true right_ = Ok t /\
+    let ks := filter (fun c => mem_str c (hdr nj_other)) (hdr nj_self) in
+    rows t <> spec_inner_join (hdr nj_self) (rows nj_self) (hdr nj_other) (rows nj_other) ks ks.
+Proof.
+  split; [|split].
+  - unfold wf, nj_self. cbn. split; [reflexivity|]. split; [repeat constructor|].
+    constructor; [cbn; intros [H|[H|[]]]; discriminate H|].
+    constructor; [cbn; intros [H|[]]; discriminate H|]. constructor; [intros []|constructor].
+  - unfold wf, nj_other. cbn. split; [reflexivity|]. split; [repeat constructor|].
+    constructor; [cbn; intros [H|[H|[]]]; discriminate H|].
+    constructor; [cbn; intros [H|[]]; discriminate H|]. constructor; [intros []|constructor].
+  - eexists. split; [vm_compute; reflexivity|]. vm_compute. discriminate.
+Qed.
